@@ -130,13 +130,22 @@ def main():
     cands += [('ctx', v) for v in ck.absorb('ZervTemplateContext::from_zerv agrees with the renderers', ex, expect_tags=['context'])]
     ex = engine.explore('c15', 'path_fn', fargs, jobs=ck.jobs, deadline=time.time() + (300 if quick else 1800))
     cands += [('fn', v) for v in ck.absorb('custom template functions keep their contracts', ex, expect_tags=['fn_returned'])]
+    import c04, c04_check
+    hargs = [(n, L, a) for L in (1, 7, 10, 20, 21, 24) for (n, a) in ((1, None), (2, False), (1, True))]
+    ex = engine.explore('c04', 'path_hash', hargs, jobs=ck.jobs, deadline=time.time() + 300)
+    cands += [('hash_int', v) for v in ck.absorb('hash_int: <= length decimal digits, no leading zero unless allowed', ex, expect_tags=['hashed'])]
     seen = set()
     for kind, v in cands:
         key = json.dumps(v, sort_keys=True, default=str)
         if key in seen:
             continue
         seen.add(key)
-        ok, desc = confirm(kind, v)
+        if kind == 'hash_int':
+            if v['clause'] == 'hash_not_u32':
+                continue          # the u32 limit of the flow pipeline is C04's subject
+            ok, desc = c04_check.confirm_hash(v)
+        else:
+            ok, desc = confirm(kind, v)
         ck.validated += 1
         cls = v['clause'] if kind != 'fn' else '%s:%s' % (v['clause'], v['fn'])
         (ck.confirmed if ok else ck.not_reproduced)(cls, v['clause'] + ': ' + desc, dict(v, kind=kind))
